@@ -610,7 +610,7 @@ func (s *Store) PeeringWrite(idx uint64, req *pbpeering.PeeringWriteRequest) err
 			return err
 		}
 		if idMatch != nil {
-			return fmt.Errorf("A peering already exists with the ID %q and a different name %q", req.Peering.Name, existing.ID)
+			return fmt.Errorf("A peering already exists with the ID %q and a different name %q", req.Peering.ID, idMatch.Name)
 		}
 
 		if !req.Peering.IsActive() {
